@@ -38,6 +38,8 @@ TRUSTED = [
     "Eckart-Young-Mirsky theorem (the r'-term truncation maximises the overlap among states of Schmidt rank <= r') - cited, not proved",
 ]
 ASSUMPTIONS = ["exact arithmetic in the theorems; implementation compared to 1e-7",
+               "singular values of generated inputs stay outside [1e-9, 1e-5], except the boundary families with one coefficient at 3.3e-8 "
+               "(oracle and tie; excluded band (5e-8, 2e-7) there) and 3e-7 (tie of the plan only)",
                "partition: duplicate-free list of qubits < n in any order (C07_placement); unsorted lists are exercised in tie and oracle and by a fixed regression probe (key lowrank.partition-order:unsorted-list)"]
 RULE = ("tie: (n, partition list, lr, scheme pair) whose observed plan (rank, ebits, registers, fan-out pairs, encoder kind and "
         "shape per block) was diffed against the Lean model; oracle: (family, n, partition, lr, scheme pair) on which the "
